@@ -369,6 +369,12 @@ func LoadFromViper(inputViper *viper.Viper) (Config, error) {
 func loadFromViper(v *viper.Viper, home string) (Config, error) {
 	cfg := DefaultConfig
 	cfg.RootDir = home
+	// DefaultConfig.Instrumentation is a pointer: decode into a private copy, otherwise every
+	// Load overwrites the shared defaults and later loads in the same process inherit them
+	if cfg.Instrumentation != nil {
+		instr := *cfg.Instrumentation
+		cfg.Instrumentation = &instr
+	}
 
 	decoder, err := mapstructure.NewDecoder(&mapstructure.DecoderConfig{
 		DecodeHook: mapstructure.ComposeDecodeHookFunc(
